@@ -1,0 +1,111 @@
+//! Verification hooks (only compiled with `--cfg tracing_verif`).
+//!
+//! Thin wrappers that *call* the crate's private code so that an external
+//! harness crate can drive it: the rolling appender's rotation state without a
+//! file, and the non-blocking writer's worker without a spawned thread. The
+//! forwarders that must sit next to private items live in `__verif*` child
+//! modules / impl blocks of the files concerned (added lines only).
+#![allow(missing_docs, unreachable_pub, missing_debug_implementations)]
+
+use crate::worker::{Worker, WorkerState};
+use crate::Msg;
+use std::io::{self, Write};
+
+pub use crate::non_blocking::__verif_non_blocking::{VGuard, VSendTimeout};
+pub use crate::rolling::__verif_rolling::{rotation_next_date, rotation_round_date, VInner};
+
+/// Mirror of the private `WorkerState` (a plain renaming; no logic).
+#[derive(Debug, Clone, Copy, PartialEq, Eq)]
+pub enum VWorkerState {
+    Empty,
+    Disconnected,
+    Continue,
+    Shutdown,
+}
+
+fn state(s: WorkerState) -> VWorkerState {
+    match s {
+        WorkerState::Empty => VWorkerState::Empty,
+        WorkerState::Disconnected => VWorkerState::Disconnected,
+        WorkerState::Continue => VWorkerState::Continue,
+        WorkerState::Shutdown => VWorkerState::Shutdown,
+    }
+}
+
+/// The real `Worker`, not running on any thread.
+pub struct VWorker<W: Write + Send + 'static>(Worker<W>);
+
+/// What `NonBlocking::create` builds (same channel capacities, same fields),
+/// except that `Worker::worker_thread` is not called.
+pub fn non_blocking_unspawned<W: Write + Send + 'static>(
+    writer: W,
+    buffered_lines_limit: usize,
+    is_lossy: bool,
+) -> (crate::non_blocking::NonBlocking, VWorker<W>, VGuard) {
+    let (nb, worker, guard) = crate::non_blocking::__verif_non_blocking::create_unspawned(
+        writer,
+        buffered_lines_limit,
+        is_lossy,
+    );
+    (nb, VWorker(worker), guard)
+}
+
+impl<W: Write + Send + 'static> VWorker<W> {
+    /// One step of the worker thread's loop: the real `Worker::work`.
+    pub fn work(&mut self) -> io::Result<VWorkerState> {
+        self.0.work().map(state)
+    }
+
+    /// The real `Worker::handle_recv` on `Ok(Msg::Line(line))`.
+    pub fn handle_recv_line(&mut self, line: Vec<u8>) -> io::Result<VWorkerState> {
+        self.0.__verif_handle_recv(&Ok(Msg::Line(line))).map(state)
+    }
+
+    /// The real `Worker::handle_recv` on `Ok(Msg::Shutdown)`.
+    pub fn handle_recv_shutdown(&mut self) -> io::Result<VWorkerState> {
+        self.0.__verif_handle_recv(&Ok(Msg::Shutdown)).map(state)
+    }
+
+    /// The real `Worker::handle_recv` on a disconnected channel.
+    pub fn handle_recv_disconnected(&mut self) -> io::Result<VWorkerState> {
+        self.0
+            .__verif_handle_recv(&Err(crossbeam_channel::RecvError))
+            .map(state)
+    }
+
+    /// The real `Worker::handle_try_recv` on `Ok(Msg::Line(line))`.
+    pub fn handle_try_recv_line(&mut self, line: Vec<u8>) -> io::Result<VWorkerState> {
+        self.0
+            .__verif_handle_try_recv(&Ok(Msg::Line(line)))
+            .map(state)
+    }
+
+    /// The real `Worker::handle_try_recv` on `Ok(Msg::Shutdown)`.
+    pub fn handle_try_recv_shutdown(&mut self) -> io::Result<VWorkerState> {
+        self.0.__verif_handle_try_recv(&Ok(Msg::Shutdown)).map(state)
+    }
+
+    /// The real `Worker::handle_try_recv` on an empty (`false`) or disconnected (`true`) channel.
+    pub fn handle_try_recv_err(&mut self, disconnected: bool) -> io::Result<VWorkerState> {
+        let e = if disconnected {
+            crossbeam_channel::TryRecvError::Disconnected
+        } else {
+            crossbeam_channel::TryRecvError::Empty
+        };
+        self.0.__verif_handle_try_recv(&Err(e)).map(state)
+    }
+
+    /// The underlying writer (to inspect a recording sink).
+    pub fn writer(&mut self) -> &mut W {
+        self.0.__verif_writer()
+    }
+
+    /// What the worker thread does once `work` reports `Shutdown` / `Disconnected`:
+    /// drops the writer, then waits for the guard's rendezvous message.
+    /// Returns whether the rendezvous message arrived.
+    pub fn finish(self) -> bool {
+        let (writer, _receiver, shutdown) = self.0.__verif_into_parts();
+        drop(writer); // drop now in case it blocks
+        shutdown.recv().is_ok()
+    }
+}
